@@ -132,3 +132,17 @@ PROPS["C02"] = {
         "macro text is verified after `(async $body).await` is replaced by an abstract attempt with a ghost outcome log",
     ],
 }
+
+PROPS["C17"] = {
+    "level": "other",
+    "technique": "Verus totality + termination contracts on the extracted protobuf reader (read_varint, parse_sample, parse_label, parse_timeseries, parse_write_request: every index, slice bound and addition proved safe for all byte strings, position strictly increasing); Kani complete harnesses for the checked end computation, the value routing over all f64 bit patterns and the ms->ns conversion; bounded harness for the varint value",
+    "verus": ["c17_parsers.rs.in"],
+    "kani": ["c17_ingest"],
+    "explanation": "Parser totality and termination are proved unbounded by Verus on the extracted text; end computation, value routing (all f64 bit patterns) and ms->ns conversion are complete Kani proofs; the varint value formula is checked by a bounded Kani harness (16-byte window). Row-level fidelity of the conversion loops (labels, ordering) and the OTLP path are not under contract, hence level other.",
+    "assumptions": [
+        "a Rust slice never spans more than isize::MAX bytes",
+        "String::from_utf8_lossy, f64::from_le_bytes do not panic (shims); snappy / prost / Flight decoders return errors rather than panic (external, not verified)",
+        "alloc::fmt::format is stubbed in the Kani harnesses (error-message text only)",
+        "the per-series fidelity loop of convert_prom_to_arrow (labels, row order) and the OTLP conversion are not under contract: the claim covers parser totality, end computation, value routing and timestamp conversion",
+    ],
+}
